@@ -599,7 +599,14 @@ func buildHistoryWorld() []string {
 	hist["P1"] = strings.Replace(hist["U0"], "h1.example", "h1.example:443", 1)
 	// a redirecting URL asked for with a fragment: the source is still the plain final URL
 	hist["F3"] = hist["U1"] + "#sec"
-	return []string{"U0", "U1", "U2", "U3", "U4", "U5", "L3", "L2", "L1", "X0", "H0", "RH", "F1", "F2", "P1", "F3"}
+	// URLs that differ only in the letter case of the path are different documents: a twin
+	// of U0, and a URL that redirects to its own case twin
+	hist["C0"] = h("u0")
+	put(hist["C0"], docResp(map[string]any{"id": hist["C0"], "type": "Note", "n": "the lower-case twin of U0"}))
+	hist["CA"], hist["Ca"] = h("Alice"), h("alice")
+	put(hist["CA"], world.Redirect(302, hist["Ca"]))
+	put(hist["Ca"], docResp(map[string]any{"id": hist["Ca"], "type": "Person", "n": "alice"}))
+	return []string{"U0", "U1", "U2", "U3", "U4", "U5", "L3", "L2", "L1", "X0", "H0", "RH", "F1", "F2", "P1", "F3", "C0", "CA", "Ca"}
 }
 
 type result struct {
@@ -803,7 +810,7 @@ func main() {
 		"responses: full product of status-line atoms (2 versions x 17 codes x with/without reason, 8 malformed, 10 exotic) x all header-line sequences of length <=2 over 32 atoms "+
 			"(tolerated/foreign/malformed Content-Types, confusable header names, Location, header lines longer than a 4096-byte read buffer whose tail at and around the buffer boundary reads like a Content-Type or Location) x 14 bodies x 2 tolerated sets, classified must-accept / must-reject / unspecified by a reference written from the statement; "+
 			"redirect graphs: chains of every length around each budget (jtp.Get budgets 0..3, client.FetchURL budget 20) in 5 Location styles, cycles of length 1..3, 7 kinds of bad hop at each position; "+
-			"entry points: every sequence of <=3 operations over client.FetchURL on documents of five declared types and a webfinger lookup, cache emptied before each, compared with the operation on its own; histories: explicit-state search over fetch sequences (16 URLs: documents, relative and absolute redirects, 404, cycle, chain longer than the budget and its suffixes, the same host and path under http and a redirect to it, fragment and :443 variants, a redirecting URL with a fragment) for cache sizes 1,2,3,128, "+
+			"entry points: every sequence of <=3 operations over client.FetchURL on documents of five declared types and a webfinger lookup, cache emptied before each, compared with the operation on its own; histories: explicit-state search over fetch sequences (19 URLs: documents, two that differ from others only in the letter case of the path and a redirect to one's own case twin, relative and absolute redirects, 404, cycle, chain longer than the budget and its suffixes, the same host and path under http and a redirect to it, fragment and :443 variants, a redirecting URL with a fragment) for cache sizes 1,2,3,128, "+
 			"state = real cache contents, every fetch compared with the cold result; distinct_nontrivial = response cases that are not the baseline and are judged")
 	theWorld.Install()
 	if *ev.FlagReplay != "" {
